@@ -476,11 +476,18 @@ def hasrepr_eq(repo: Repo, rep):
     if eq is None:
         rep.undecided("R-HASREPR-EQ", "HasRepr.__eq__ not found")
         return
-    calls = [x for x in body_nodes(eq.node) if isinstance(x, ast.Call) and isinstance(x.func, ast.Name) and x.func.id in ("repr", "real_repr", "code_repr", "str", "format")]
-    bad = [x for x in calls if x.func.id != "code_repr" and x.args and any(isinstance(y, ast.Name) and y.id in eq.params[1:] for y in ast.walk(x.args[0]))]
-    good = [x for x in calls if x.func.id == "code_repr"]
+    # the renderers that re-bind builtins.repr around the rendering (`with mock.patch("builtins.repr", ...)`): code_repr today
+    m = c.module
+    patchers = set()
+    for g in m.funcs.values():
+        if g.cls is None and any(isinstance(w, ast.With) and any(isinstance(i.context_expr, ast.Call) and norm(i.context_expr.func).endswith("patch") and i.context_expr.args and isinstance(i.context_expr.args[0], ast.Constant) and i.context_expr.args[0].value == "builtins.repr" for i in w.items) and any(isinstance(r_, ast.Return) for s_ in w.body for r_ in ast.walk(s_)) for w in body_nodes(g.node)):
+            patchers.add(g.name)
+    on_other = [x for x in body_nodes(eq.node) if isinstance(x, ast.Call) and isinstance(x.func, ast.Name) and x.args and any(isinstance(y, ast.Name) and y.id in eq.params[1:] for y in ast.walk(x.args[0]))]
+    renders = [x for x in on_other if x.func.id in ("repr", "real_repr", "str", "format") or (x.func.id in m.funcs and m.funcs[x.func.id].cls is None)]
+    bad = [x for x in renders if x.func.id not in patchers]
+    good = [x for x in renders if x.func.id in patchers]
     if bad:
-        rep.violation("R-HASREPR-EQ", eq, bad[0], f"HasRepr.__eq__ renders the compared object with `{norm(bad[0])}`: the stored text was written by code_repr(), the two differ as soon as the object's __repr__ embeds repr() of an Enum, a class or a dataclass - the created snapshot fails on the next run", construct="eq-builtin-repr")
+        rep.violation("R-HASREPR-EQ", eq, bad[0], f"HasRepr.__eq__ renders the compared object with `{norm(bad[0])}`, which does not re-bind builtins.repr while it renders: the stored text was written by code_repr() (under the re-bound repr), the two differ as soon as the object's __repr__ embeds repr() of an Enum, a class or a dataclass - the created snapshot fails on the next run", construct="eq-builtin-repr")
     elif good:
         rep.ok("R-HASREPR-EQ", eq, good[0], "HasRepr.__eq__ compares with code_repr(other)")
     else:
